@@ -31,6 +31,9 @@ var Shared = map[expr.Operator]RenderFN{
 	expr.List:      list,
 }
 
+// maxColumnNameLen is the longest identifier postgres keeps (NAMEDATALEN - 1)
+const maxColumnNameLen = 63
+
 // Base is the base driver that is embedded in each driver
 type Base struct {
 	RenderFNs map[expr.Operator]RenderFN
@@ -204,6 +207,10 @@ func (b Base) serialize(in any) (s string, err error) {
 		if strings.ContainsRune(string(v), '"') {
 			return "", fmt.Errorf("column name contains a double quote: %q", v)
 		}
+		// postgres silently truncates longer identifiers so the name would refer to another column
+		if len(v) > maxColumnNameLen {
+			return "", fmt.Errorf("column name is longer than %d bytes: %q", maxColumnNameLen, v)
+		}
 		// Always escape column names with double quotes,
 		// otherwise we need to know the reserved words
 		// which might change in the future.
@@ -257,6 +264,10 @@ func (b Base) serializeParams(in any) (s string, params []any, err error) {
 		}
 		if strings.ContainsRune(string(v), '"') {
 			return "", params, fmt.Errorf("column name contains a double quote: %q", v)
+		}
+		// postgres silently truncates longer identifiers so the name would refer to another column
+		if len(v) > maxColumnNameLen {
+			return "", params, fmt.Errorf("column name is longer than %d bytes: %q", maxColumnNameLen, v)
 		}
 		// Always escape column names with double quotes,
 		// otherwise we need to know the reserved words
